@@ -276,6 +276,7 @@ type Ctl struct {
 	Loop  *recLoop
 	wlogN int
 	raced bool
+	wfail bool
 }
 
 func NewCtl(rec *Recorder, spec FanSpec, pwm0, mode0 int, avg0 float64) *Ctl {
@@ -428,6 +429,30 @@ func (c *Ctl) CycleRaced(cv int, dt int) (int, error) {
 	return c.Cycle(cv, dt)
 }
 
+// CycleWriteFault: like Cycle, but the device refuses the PWM write of this cycle (a transient error of the driver). The
+// cycle is recorded with "wfail" and is exempt from the per-cycle guarantees; what the FOLLOWING cycles do is judged.
+func (c *Ctl) CycleWriteFault(cv int, dt int) (int, error) {
+	if c.Spec.Kind == "cmd" {
+		return c.Cycle(cv, dt)
+	}
+	c.Env.mu.Lock()
+	c.Env.OnWrite = func(e *Env, name string, val int) (error, bool, bool) {
+		if name == "pwm" {
+			return fmt.Errorf("injected write error"), false, true
+		}
+		return nil, false, false
+	}
+	c.Env.mu.Unlock()
+	c.wfail = true
+	defer func() {
+		c.wfail = false
+		c.Env.mu.Lock()
+		c.Env.OnWrite = nil
+		c.Env.mu.Unlock()
+	}()
+	return c.Cycle(cv, dt)
+}
+
 // Cycle performs one UpdateFanSpeed with the given curve value and records it.
 // dt is the (virtual) time in ms the driver let pass since the previous cycle (logged only).
 func (c *Ctl) Cycle(cv int, dt int) (req int, cerr error) {
@@ -450,7 +475,7 @@ func (c *Ctl) Cycle(cv int, dt int) (req int, cerr error) {
 		req = -1
 	}
 	ev := Ev{
-		"ev": "Cycle", "cv": cv, "dt": dt, "raced": c.raced,
+		"ev": "Cycle", "cv": cv, "dt": dt, "raced": c.raced, "wfail": c.wfail,
 		"lt": c.Loop.target, "lc": c.Loop.current, "lo": c.Loop.out, "lcalls": c.Loop.calls - calls,
 		"req": req, "last": st.LastSetPwm, "err": cerr != nil,
 		"wrote": wrote, "nw": len(writes), "mw": modeWrites,
